@@ -1,7 +1,7 @@
 (* Decision-table theorems for the "inject" plugin family (B608, B610, B611, B701, B702, B703, B704). *)
 From Coq Require Import List NArith ZArith Bool String Lia.
 From Bandit Require Import Base.PyStr Ast.Node Engine.Types Engine.Resolve Engine.Context Engine.Scan
-     Regex.Regex Gen.Regexes Plugins.Inject Proofs.PyStrFacts.
+     Regex.Regex Gen.Regexes Gen.Registry Plugins.Inject Proofs.PyStrFacts.
 Import ListNotations.
 Local Open Scope string_scope.
 Local Open Scope list_scope.
@@ -212,22 +212,23 @@ Proof. vm_compute. repeat split. Qed.
 
 (* B611: under an import resembling django.db.models, a call named RawSQL is judged on its first
    positional argument, else on its sql= keyword; a string literal there is silent, anything else is
-   reported, and a call with neither raises KeyError. *)
+   reported, and a call with neither (RawSQL(), RawSQL(params=[]), only **kw) yields no finding (it
+   raised KeyError before /repo commit 5af70d4). *)
 Theorem django_rawsql_rule (cfg : jv) (c : ctx) :
   (rawsql_applies c = false -> django_rawsql_used cfg c = Ok None)
-  /\ (forall sql, rawsql_applies c = true -> rawsql_sql (c_node c) = Ok sql -> is_Str sql = true ->
+  /\ (forall sql, rawsql_applies c = true -> rawsql_sql (c_node c) = Some sql -> is_Str sql = true ->
       django_rawsql_used cfg c = Ok None)
-  /\ (forall sql, rawsql_applies c = true -> rawsql_sql (c_node c) = Ok sql -> is_Str sql = false ->
+  /\ (forall sql, rawsql_applies c = true -> rawsql_sql (c_node c) = Some sql -> is_Str sql = false ->
       django_rawsql_used cfg c = Ok (Some rawsql_issue))
   /\ (rawsql_applies c = true -> field_list "args" (c_node c) = [] ->
       kw_last (s2p "sql") (field_list "keywords" (c_node c)) = None ->
-      django_rawsql_used cfg c = Raise KeyError)
-  /\ (forall a rest, field_list "args" (c_node c) = a :: rest -> rawsql_sql (c_node c) = Ok a).
+      django_rawsql_used cfg c = Ok None)
+  /\ (forall a rest, field_list "args" (c_node c) = a :: rest -> rawsql_sql (c_node c) = Some a).
 Proof.
   unfold django_rawsql_used. repeat split.
   - intros H. rewrite H. reflexivity.
-  - intros sql H1 H2 H3. rewrite H1, H2. simpl. rewrite H3. reflexivity.
-  - intros sql H1 H2 H3. rewrite H1, H2. simpl. rewrite H3. reflexivity.
+  - intros sql H1 H2 H3. rewrite H1, H2, H3. reflexivity.
+  - intros sql H1 H2 H3. rewrite H1, H2, H3. reflexivity.
   - intros H1 H2 H3. rewrite H1. unfold rawsql_sql. rewrite H2, H3. reflexivity.
   - intros a rest H. unfold rawsql_sql. rewrite H. reflexivity.
 Qed.
@@ -239,7 +240,7 @@ Example django_rawsql_rule_ex :
   rawsql_applies (call_ctx (ex_raw_call []) [] ex_raw_imports q) = true
   /\ django_rawsql_used JNull (call_ctx (ex_raw_call [Str_ 1 7 "select 1"]) [] ex_raw_imports q) = Ok None
   /\ django_rawsql_used JNull (call_ctx (ex_raw_call [Name_ 1 7 "x"]) [] ex_raw_imports q) = Ok (Some rawsql_issue)
-  /\ django_rawsql_used JNull (call_ctx (ex_raw_call []) [] ex_raw_imports q) = Raise KeyError
+  /\ django_rawsql_used JNull (call_ctx (ex_raw_call []) [] ex_raw_imports q) = Ok None
   /\ django_rawsql_used JNull (call_ctx (ex_raw_call [Name_ 1 7 "x"]) [] [] "RawSQL") = Ok None.
 Proof. vm_compute. repeat split. Qed.
 
@@ -492,7 +493,7 @@ Example mark_safe_literal_silent_partial_ex :
 Proof. vm_compute. repeat split. Qed.
 
 (* the surrounding behaviour on concrete modules: v = "lit"; mark_safe(v) is silent, v = foo() is not,
-   no argument raises IndexError *)
+   no positional argument is silent (it raised IndexError before /repo commit 7b49920) *)
 Example mark_safe_behaviour_ex :
   let q := "django.utils.safestring.mark_safe" in
   let call := ex_safe_call [Name_ 2 10 "v"] in
@@ -501,7 +502,7 @@ Example mark_safe_behaviour_ex :
                              ex_safe_imports q) in
   run (Str_ 1 4 "lit") = Ok None
   /\ run (Call_ 1 4 (Name_ 1 4 "foo") [] []) = Ok (Some mark_safe_issue)
-  /\ django_mark_safe JNull (call_ctx (ex_safe_call []) [] ex_safe_imports q) = Raise IndexError.
+  /\ django_mark_safe JNull (call_ctx (ex_safe_call []) [] ex_safe_imports q) = Ok None.
 Proof. vm_compute. repeat split. Qed.
 
 (* ------------------------------------------------------------------------------------------------ *)
@@ -538,7 +539,7 @@ Proof.
     cbv beta iota zeta delta [bind]. rewrite check_string_empty. reflexivity.
   - intros w stmt rep H1 H2. unfold hardcoded_sql_expressions. rewrite H1. simpl. rewrite H2. reflexivity.
   - apply (django_extra_rule cfg c).
-  - intros a rest H1 H2. unfold django_rawsql_used, rawsql_sql. rewrite H1. simpl. rewrite H2.
+  - intros a rest H1 H2. unfold django_rawsql_used, rawsql_sql. rewrite H1, H2.
     destruct (rawsql_applies c); reflexivity.
   - intros v H1 H2. unfold jinja2_autoescape_false. rewrite H1. simpl.
     destruct (jinja_applies c); [|reflexivity]. destruct H2 as [H2|H2]; rewrite H2; reflexivity.
@@ -560,4 +561,356 @@ Proof.
   split; [vm_compute; reflexivity|]. split; [vm_compute; reflexivity|].
   split; [exists ex_select; vm_compute; split; reflexivity|].
   split; [vm_compute; discriminate|]. split; vm_compute; reflexivity.
+Qed.
+
+(* ------------------------------------------------------------------------------------------------ *)
+(* Totality: which plugins of the family can raise                                                    *)
+
+Definition never_raises {A} (r : res A) : Prop := exists a, r = Ok a.
+
+(* B608 walks _bandit_parent links (three levels for "lit".format / "lit".replace, two for an f-string
+   piece); the only way to raise is to walk off the root, which cannot happen below a Module: an
+   Attribute / JoinedStr is an expression, so a statement and the Module lie above it.  Stated over the
+   depth of the ancestor stack. *)
+Theorem hardcoded_sql_expressions_never_raises (cfg : jv) (c : ctx) :
+  (is_cls "Attribute" (parent_of c) = true -> 3 <= List.length (c_parents c)) ->
+  (is_cls "JoinedStr" (parent_of c) = true -> 2 <= List.length (c_parents c)) ->
+  never_raises (hardcoded_sql_expressions cfg c).
+Proof.
+  intros Ha Hj.
+  assert (Hanc : forall k, k < List.length (c_parents c) -> exists w, ancestor k c = Ok w).
+  { intros k Hk. unfold ancestor. destruct (nth_error (c_parents c) k) as [[p x]|] eqn:E.
+    - exists p. reflexivity.
+    - apply nth_error_None in E. lia. }
+  unfold never_raises, hardcoded_sql_expressions, sql_evaluate.
+  assert (Hfin : forall w stmt rep,
+             exists a, (if check_string stmt
+                        then Ok (Some (sql_issue (sql_conf (sql_execute_call w) rep))) else Ok None) = Ok a).
+  { intros w stmt rep. destruct (check_string stmt); eexists; reflexivity. }
+  unfold sql_kind_of.
+  destruct (is_cls "BinOp" (parent_of c)) eqn:Eb.
+  { destruct (concat_string _ _ _) as [w st]. apply Hfin. }
+  destruct (is_cls "Attribute" (parent_of c)) eqn:Ea; cbn [andb].
+  { destruct (Hanc 2 (Ha eq_refl)) as [w Hw].
+    destruct (pstr_eqb (attr_of (parent_of c)) (s2p "format")).
+    - rewrite Hw. apply Hfin.
+    - destruct (pstr_eqb (attr_of (parent_of c)) (s2p "replace")).
+      + rewrite Hw. apply Hfin.
+      + destruct (is_cls "JoinedStr" (parent_of c)) eqn:Ej.
+        * destruct (Hanc 1 (Hj eq_refl)) as [w1 Hw1].
+          destruct (filter is_Str (field_list "values" (parent_of c))) as [|s0 l].
+          { apply Hfin. }
+          destruct (node_eqb (c_node c) s0); [rewrite Hw1|]; apply Hfin.
+        * apply Hfin. }
+  destruct (is_cls "JoinedStr" (parent_of c)) eqn:Ej.
+  - destruct (Hanc 1 (Hj eq_refl)) as [w1 Hw1].
+    destruct (filter is_Str (field_list "values" (parent_of c))) as [|s0 l].
+    { apply Hfin. }
+    destruct (node_eqb (c_node c) s0); [rewrite Hw1|]; apply Hfin.
+  - apply Hfin.
+Qed.
+
+(* without the depth premise the model does raise (a context that no visited tree produces) *)
+Example hardcoded_sql_expressions_off_tree_ex :
+  hardcoded_sql_expressions JNull (str_ctx ex_rep_lit [ex_rep_attr]) = Raise AttributeError.
+Proof. vm_compute. reflexivity. Qed.
+
+Theorem django_extra_used_never_raises (cfg : jv) (c : ctx) : never_raises (django_extra_used cfg c).
+Proof.
+  unfold never_raises, django_extra_used.
+  destruct (opt_is _ _); [destruct (extra_literal_only _)|]; eexists; reflexivity.
+Qed.
+
+Theorem django_rawsql_used_never_raises (cfg : jv) (c : ctx) : never_raises (django_rawsql_used cfg c).
+Proof.
+  unfold never_raises, django_rawsql_used.
+  destruct (rawsql_applies c); [|eexists; reflexivity].
+  destruct (rawsql_sql (c_node c)) as [sql|]; [destruct (is_Str sql)|]; eexists; reflexivity.
+Qed.
+
+Theorem jinja2_autoescape_false_never_raises (cfg : jv) (c : ctx) :
+  never_raises (jinja2_autoescape_false cfg c).
+Proof.
+  unfold never_raises, jinja2_autoescape_false. destruct (jinja_applies c); eexists; reflexivity.
+Qed.
+
+Theorem use_of_mako_templates_never_raises (cfg : jv) (c : ctx) :
+  never_raises (use_of_mako_templates cfg c).
+Proof.
+  unfold never_raises, use_of_mako_templates. destruct (mako_applies c); eexists; reflexivity.
+Qed.
+
+(* B704 is total for every well-formed configuration (a mapping whose two options are lists) ... *)
+Theorem markupsafe_markup_xss_never_raises (kv : list (pstr * jv)) (ns al : list jv) (c : ctx) :
+  cfg_get (JDict kv) (s2p "extend_markup_names") = Ok (JList ns) ->
+  cfg_get (JDict kv) (s2p "allowed_calls") = Ok (JList al) ->
+  never_raises (markupsafe_markup_xss (JDict kv) c).
+Proof.
+  intros Hn Ha. unfold never_raises. rewrite (markup_rule kv ns al c Hn Ha). eexists. reflexivity.
+Qed.
+
+(* ... in particular for the default one, gen_config("markupsafe_xss"), as regenerated in Gen.Registry *)
+Definition markup_default_cfg : jv := effective_cfg defaults [] (Some (s2p "markupsafe_xss")).
+
+Theorem markupsafe_markup_xss_never_raises_default (c : ctx) :
+  never_raises (markupsafe_markup_xss markup_default_cfg c).
+Proof.
+  assert (H : markup_default_cfg
+              = JDict [(s2p "extend_markup_names", JList []); (s2p "allowed_calls", JList [])])
+    by (vm_compute; reflexivity).
+  rewrite H. apply (markupsafe_markup_xss_never_raises _ [] []); reflexivity.
+Qed.
+
+(* ... but not for arbitrary configurations *)
+Theorem markupsafe_markup_xss_never_raises_refuted :
+  (exists c, markupsafe_markup_xss (JInt 0) c = Raise AttributeError)
+  /\ (exists c, markupsafe_markup_xss (JDict [(s2p "extend_markup_names", JNull)]) c = Raise TypeError).
+Proof.
+  split; exists (call_ctx (Call_ 1 0 (Name_ 1 0 "f") [] []) [] [] "f"); vm_compute; reflexivity.
+Qed.
+
+(* B703: the cases in which it is total ... *)
+Theorem django_mark_safe_total_cases (cfg : jv) (c : ctx) :
+  (mark_safe_applies c = false -> django_mark_safe cfg c = Ok None)
+  /\ (field_list "args" (c_node c) = [] -> django_mark_safe cfg c = Ok None)
+  /\ (forall a rest, field_list "args" (c_node c) = a :: rest -> is_Str a = true ->
+      django_mark_safe cfg c = Ok None)
+  /\ (forall a rest, mark_safe_applies c = true -> field_list "args" (c_node c) = a :: rest ->
+      is_Str a = false -> is_cls "Name" a = false -> is_cls "Call" a = false -> is_mod_of_literal a = false ->
+      django_mark_safe cfg c = Ok (Some mark_safe_issue)).
+Proof.
+  unfold django_mark_safe. repeat split.
+  - intros H. rewrite H. reflexivity.
+  - intros H. rewrite H. destruct (mark_safe_applies c); reflexivity.
+  - intros a rest H1 H2. rewrite H1, H2. destruct (mark_safe_applies c); reflexivity.
+  - intros a rest H0 H1 H2 H3 H4 H5. rewrite H0, H1, H2. unfold check_risk, mark_safe_secure.
+    rewrite H3, H4, H5. reflexivity.
+Qed.
+
+(* ... the exception classes it can raise at all: IndexError and AttributeError out of
+   DeepAssignation.is_assigned (AttributeError also for a context without an enclosing Module, which no
+   visited tree produces), OtherError = RecursionError out of the evaluate_var/evaluate_call recursion *)
+Definition okx (e : exn) : Prop := e = IndexError \/ e = AttributeError.
+Definition raises_ok {A} (r : res A) : Prop := forall e, r = Raise e -> okx e.
+Lemma raises_ok_Ok {A} (a : A) : raises_ok (Ok a).
+Proof. intros e H. discriminate. Qed.
+Lemma raises_ok_bind {A B} (a : res A) (k : A -> res B) :
+  raises_ok a -> (forall x, raises_ok (k x)) -> raises_ok (bind a k).
+Proof. intros Ha Hk. destruct a as [x|e]; simpl; [apply Hk|]. intros e0 H. inversion H; subst. apply (Ha e0). reflexivity. Qed.
+
+Definition items_ok (g : node -> res asg) (v : node) : Prop :=
+  match v with NList its => Forall (fun i => raises_ok (g i)) its | _ => True end.
+
+Lemma in_field_ok (g : node -> res asg) (f : string) (fs : list (string * node)) :
+  Forall (fun kv => items_ok g (snd kv)) fs ->
+  raises_ok ((fix find (l : list (string * node)) : res (list node) :=
+           match l with
+           | [] => Ok []
+           | (k, v) :: t =>
+               if String.eqb f k then
+                 match v with
+                 | NList its =>
+                     (fix go (is : list node) : res (list node) :=
+                        match is with
+                        | [] => Ok []
+                        | i :: is' => do a <- g i;; do r <- go is';; Ok (asg_flat a ++ r)
+                        end) its
+                 | _ => Ok []
+                 end
+               else find t
+           end) fs).
+Proof.
+  induction 1 as [|[k v] t Hv Ht IH]; [apply raises_ok_Ok|].
+  destruct (String.eqb f k); [|exact IH].
+  destruct v; try apply raises_ok_Ok. simpl in Hv.
+  induction Hv as [|i is' Hi His IHi]; [apply raises_ok_Ok|].
+  apply raises_ok_bind; [exact Hi|]. intros a. apply raises_ok_bind; [exact IHi|]. intros r. apply raises_ok_Ok.
+Qed.
+
+Definition PA (id : pstr) (n : node) : Prop := raises_ok (is_assigned id n) /\ items_ok (is_assigned id) n.
+
+Lemma is_assigned_raises id n : PA id n.
+Proof.
+  induction n using node_ind'; try (split; [apply raises_ok_Ok|exact I]).
+  - split; [|exact I].
+    assert (Hf : Forall (fun kv => items_ok (is_assigned id) (snd kv)) fs).
+    { eapply Forall_impl; [|exact H]. intros kv [_ Hk]. exact Hk. }
+    assert (Hv : Forall (fun kv => raises_ok (is_assigned id (snd kv))) fs).
+    { eapply Forall_impl; [|exact H]. intros kv [Hk _]. exact Hk. }
+    pose proof (fun f => in_field_ok (is_assigned id) f fs Hf) as Hin.
+    cbn [is_assigned].
+    destruct (c =? "Expr").
+    { clear Hin Hf H. induction Hv as [|[k v] t Hk Ht IH]; [apply raises_ok_Ok|].
+      destruct ("value" =? k); [exact Hk|exact IH]. }
+    destruct (c =? "FunctionDef").
+    { apply raises_ok_bind; [apply Hin|intros; apply raises_ok_Ok]. }
+    destruct (c =? "With").
+    { destruct (forallb _ _); [apply raises_ok_Ok|].
+      apply raises_ok_bind; [apply Hin|intros; apply raises_ok_Ok]. }
+    destruct (c =? "Try").
+    { repeat (apply raises_ok_bind; [apply Hin|intros]). apply raises_ok_Ok. }
+    destruct (c =? "ExceptHandler").
+    { repeat (apply raises_ok_bind; [apply Hin|intros]). apply raises_ok_Ok. }
+    destruct ((c =? "If") || (c =? "For") || (c =? "While")).
+    { repeat (apply raises_ok_bind; [apply Hin|intros]). apply raises_ok_Ok. }
+    destruct (c =? "AugAssign").
+    { destruct (_ && _); apply raises_ok_Ok. }
+    destruct (c =? "Assign"); [|apply raises_ok_Ok].
+    destruct (field_list "targets" (Node c p fs)) as [|target rest]; [apply raises_ok_Ok|].
+    destruct (is_cls "Name" target).
+    { destruct (pstr_eqb _ _); apply raises_ok_Ok. }
+    destruct (_ && _); [|apply raises_ok_Ok].
+    generalize 0%nat. generalize (field_list "elts" target).
+    induction l as [|t ts IH]; intros pos; [apply raises_ok_Ok|].
+    destruct (field_opt "id" t) as [[| | |s| |]|]; try (intros e He; inversion He; right; reflexivity).
+    destruct (pstr_eqb s id); [|apply IH].
+    destruct (nth_error _ pos); [apply raises_ok_Ok|]. intros e He; inversion He; left; reflexivity.
+  - split; [apply raises_ok_Ok|]. simpl. eapply Forall_impl; [|exact H]. intros a [Ha _]. exact Ha.
+Qed.
+
+Definition okx3 (e : exn) : Prop := e = IndexError \/ e = AttributeError \/ e = OtherError.
+Definition raises3 {A} (r : res A) : Prop := forall e, r = Raise e -> okx3 e.
+Lemma raises3_Ok {A} (a : A) : raises3 (Ok a).
+Proof. intros e H. discriminate. Qed.
+Lemma raises3_bind {A B} (a : res A) (k : A -> res B) :
+  raises3 a -> (forall x, raises3 (k x)) -> raises3 (bind a k).
+Proof.
+  intros Ha Hk. destruct a as [x|e]; simpl; [apply Hk|].
+  intros e0 H. inversion H; subst. apply (Ha e0). reflexivity.
+Qed.
+Lemma raises_ok_3 {A} (r : res A) : raises_ok r -> raises3 r.
+Proof. intros H e He. destruct (H e He) as [->| ->]; unfold okx3; tauto. Qed.
+
+Section R3.
+  Variable rec : xtask -> res bool.
+  Variable parent : node.
+  Hypothesis Hrec : forall t, raises3 (rec t).
+
+  Lemma xss_all_r3 ln l : raises3 (xss_all rec ln l).
+  Proof.
+    induction l as [|x l IH]; simpl; [apply raises3_Ok|].
+    destruct (is_Str x); [exact IH|]. destruct (is_cls "Name" x); [|apply raises3_Ok].
+    apply raises3_bind; [apply Hrec|]. intros [|]; [exact IH|apply raises3_Ok].
+  Qed.
+
+  Lemma xss_loop_r3 id until body secure : raises3 (xss_loop rec id until body secure).
+  Proof.
+    revert secure. induction body as [|st rest IH]; intros secure; simpl; [apply raises3_Ok|].
+    destruct (Z.geb _ _); [apply raises3_Ok|].
+    apply raises3_bind; [apply raises_ok_3, is_assigned_raises|]. intros [|v|l].
+    - apply IH.
+    - destruct (is_Str v); [apply IH|]. destruct (is_cls "Name" v).
+      + apply raises3_bind; [apply Hrec|]. intros s. apply IH.
+      + destruct (is_cls "Call" v); [|apply raises3_Ok].
+        apply raises3_bind; [apply Hrec|]. intros s. apply IH.
+    - destruct l as [|y l']; [apply IH|].
+      apply raises3_bind; [apply xss_all_r3|]. intros [|]; [apply IH|apply raises3_Ok].
+  Qed.
+
+  Lemma xss_args_r3 ln q pending : raises3 (xss_args rec ln q pending).
+  Proof.
+    revert pending. induction q as [|a q IH]; intros pending; simpl.
+    - destruct pending; [apply raises3_Ok|apply Hrec].
+    - destruct (is_Str a); [apply IH|].
+      destruct (is_cls "Name" a).
+      { apply raises3_bind; [apply Hrec|]. intros [|]; [apply IH|apply raises3_Ok]. }
+      destruct (is_cls "Call" a).
+      { apply raises3_bind; [apply Hrec|]. intros [|]; [apply IH|apply raises3_Ok]. }
+      destruct (is_starred_display a); [apply IH|apply raises3_Ok].
+  Qed.
+
+  Lemma xss_step_r3 t : raises3 (xss_step rec parent t).
+  Proof.
+    destruct t as [id until|call|ln queue]; simpl.
+    - destruct (is_param parent id); [apply raises3_Ok|apply xss_loop_r3].
+    - destruct (is_format_call call); [apply Hrec|apply raises3_Ok].
+    - apply xss_args_r3.
+  Qed.
+End R3.
+
+Lemma xss_eval_r3 fuel parent t : raises3 (xss_eval fuel parent t).
+Proof.
+  revert t. induction fuel as [|f IH]; intros t.
+  - intros e H. inversion H. unfold okx3. tauto.
+  - change (xss_eval (S f) parent t) with (xss_step (xss_eval f parent) parent t).
+    apply xss_step_r3. exact IH.
+Qed.
+
+Theorem django_mark_safe_raises_only (cfg : jv) (c : ctx) (e : exn) :
+  django_mark_safe cfg c = Raise e -> e = IndexError \/ e = AttributeError \/ e = OtherError.
+Proof.
+  revert e. change (raises3 (django_mark_safe cfg c)). unfold django_mark_safe.
+  destruct (mark_safe_applies c); [|apply raises3_Ok].
+  destruct (field_list "args" (c_node c)) as [|xss rest]; [apply raises3_Ok|].
+  destruct (is_Str xss); [apply raises3_Ok|].
+  unfold check_risk. apply raises3_bind; [|intros [|]; apply raises3_Ok].
+  assert (Hs : raises3 (enclosing_scope c)).
+  { unfold enclosing_scope. destruct (find _ _) as [[p x]|]; [apply raises3_Ok|].
+    intros e H. inversion H. unfold okx3. tauto. }
+  unfold mark_safe_secure.
+  destruct (is_cls "Name" xss).
+  { apply raises3_bind; [exact Hs|]. intros p. destruct (is_param _ _); [apply raises3_Ok|apply xss_eval_r3]. }
+  destruct (is_cls "Call" xss).
+  { apply raises3_bind; [exact Hs|]. intros p. apply xss_eval_r3. }
+  destruct (is_mod_of_literal xss); [|apply raises3_Ok].
+  apply raises3_bind; [exact Hs|]. intros p. apply xss_eval_r3.
+Qed.
+
+(* ... and the three shapes on which it still raises.  Module of two or three statements; the call is the
+   last statement and the context is the one the visitor builds for it. *)
+Definition ex_ms_ctx (call : node) (body : list node) : ctx :=
+  call_ctx call [Expr_ (node_line call) 0 call; Module_ body] ex_safe_imports "django.utils.safestring.mark_safe".
+Definition Tuple_ (l c : Z) (elts : list node) : node :=
+  Node "Tuple" (P_ l c) [("elts", NList elts); ("ctx", Node "Load" None [])].
+
+(* w, v = 'a',            (right-hand tuple shorter than the target)
+   mark_safe(v) *)
+Theorem django_mark_safe_raises_index_error :
+  let call := ex_safe_call [Name_ 2 10 "v"] in
+  django_mark_safe JNull
+    (ex_ms_ctx call [Assign_ 1 0 (Tuple_ 1 0 [Name_ 1 0 "w"; Name_ 1 3 "v"]) (Tuple_ 1 7 [Str_ 1 7 "a"]);
+                     Expr_ 2 0 call])
+  = Raise IndexError.
+Proof. vm_compute. reflexivity. Qed.
+
+(* a.b, v = 1, 2          (a tuple-target element that is not a Name)
+   mark_safe(v) *)
+Theorem django_mark_safe_raises_attribute_error :
+  let call := ex_safe_call [Name_ 2 10 "v"] in
+  django_mark_safe JNull
+    (ex_ms_ctx call [Assign_ 1 0 (Tuple_ 1 0 [Attr_ 1 0 (Name_ 1 0 "a") "b"; Name_ 1 5 "v"])
+                               (Tuple_ 1 9 [Const_ 1 9 (CInt 1); Const_ 1 12 (CInt 2)]);
+                     Expr_ 2 0 call])
+  = Raise AttributeError.
+Proof. vm_compute. reflexivity. Qed.
+
+(* v = (
+       v); mark_safe(v)   (self-referential assignment whose right-hand side sits on the line of the call:
+                           evaluate_var recurses with the same arguments for ever; RecursionError) *)
+Definition ex_selfref_ctx : ctx :=
+  let call := ex_safe_call [Name_ 2 17 "v"] in
+  ex_ms_ctx call [Assign_ 1 0 (Name_ 1 0 "v") (Name_ 2 4 "v"); Expr_ 2 7 call].
+Theorem django_mark_safe_raises_recursion_error :
+  django_mark_safe JNull ex_selfref_ctx = Raise OtherError.
+Proof. vm_compute. reflexivity. Qed.
+
+(* the last one is not an artefact of the fuel bound: no amount of fuel produces a verdict *)
+Theorem django_mark_safe_selfref_diverges (fuel : nat) :
+  xss_eval fuel (Module_ [Assign_ 1 0 (Name_ 1 0 "v") (Name_ 2 4 "v")]) (TVar (s2p "v") 2) = Raise OtherError.
+Proof.
+  induction fuel as [|f IH]; [reflexivity|].
+  change (xss_eval (S f) ?p ?t) with (xss_step (xss_eval f p) p t).
+  cbn -[xss_eval]. exact (f_equal (fun r => bind r (fun s => Ok s)) IH).
+Qed.
+
+Theorem django_mark_safe_never_raises_refuted :
+  exists c1 c2 c3,
+    django_mark_safe JNull c1 = Raise IndexError
+    /\ django_mark_safe JNull c2 = Raise AttributeError
+    /\ django_mark_safe JNull c3 = Raise OtherError.
+Proof.
+  eexists. eexists. eexists. split; [|split].
+  - exact django_mark_safe_raises_index_error.
+  - exact django_mark_safe_raises_attribute_error.
+  - exact django_mark_safe_raises_recursion_error.
 Qed.
